@@ -131,6 +131,28 @@ func TestC07(t *testing.T) {
 				}
 			}
 			kind := rapid.IntRange(0, 5).Draw(t, l+"_kind")
+			if len(preCopy.OriginalVesting) > 0 && rapid.IntRange(0, 6).Draw(t, l+"_overAsk") == 0 && !toExists {
+				// more than the locked, undelegated coins of one denomination (possibly none of them are
+				// locked although the account still vests them, when they are all delegated): must be refused
+				ovs := preCopy.OriginalVesting
+				c := ovs[rapid.IntRange(0, len(ovs)-1).Draw(t, l+"_overDenom")]
+				lockedAmt := locked.AmountOf(c.Denom)
+				over := lockedAmt.AddRaw(1)
+				if sp := spendable.AmountOf(c.Denom); sp.IsPositive() && rapid.Bool().Draw(t, l+"_overBySpendable") {
+					over = lockedAmt.Add(randBelow(t, l+"_overAmt", sp).AddRaw(1)) // covered by the sender's free coins
+				}
+				before := v.StateDigest()
+				res := v.Run(&vestingtypes.MsgSplitVesting{FromAddress: from.String(), ToAddress: to.String(), Amount: sdk.NewCoins(sdk.NewCoin(c.Denom, over))})
+				hist = append(hist, fmt.Sprintf("now=%d over-ask split of %s%s from=%s locked=%s spendable=%s ok=%v", now.Unix(), over, c.Denom, from, locked, spendable, res.OK()))
+				if res.OK() || v.StateDigest() != before {
+					t.Fatalf("a split of %s%s was accepted=%v although only %s are locked and undelegated (state changed=%v)\nhistory: %s", over, c.Denom, res.OK(), locked, v.StateDigest() != before, jsonStr(hist))
+				}
+				classes["split_above_locked_refused"] = true
+				if lockedAmt.IsZero() && !preCopy.GetVestingCoins(now).AmountOf(c.Denom).IsZero() {
+					classes["split_of_fully_delegated_denomination_refused"] = true
+				}
+				continue
+			}
 			var msg sdk.Msg
 			var want sdk.Coins // exact reduction of locked coins expected
 			mustAccept := false
